@@ -82,6 +82,7 @@ def run(pid, tier, seed, replay=None):
     # ---- random formulas (learning, backjumping, restarts fire)
     cases += drv.gen_random(rng, 400 if tier == "quick" else 6000)
     cases += drv.gen_budget(rng, 120 if tier == "quick" else 1500)
+    cases += drv.gen_units(rng, 1500 if tier == "quick" else 20000)
     cases += drv.gen_planted(rng, 12 if tier == "quick" else 150)
     if pid == "C01":
         cases += drv.gen_select_php(rng, 2 if tier == "quick" else 12)
